@@ -1071,3 +1071,158 @@ func formattedIntsKeepTheirRange(c *cx, id string, in func(f *eng.Fn) bool) int 
 var lossyParsers = map[string]bool{
 	"net/url.ParseRequestURI": true,
 }
+
+// emptyAddressAttrAgreement (C19.28, sibling agreement): a payload type whose
+// decoder parses an attribute with jid.Parse and returns the error (so that
+// attr="" is rejected) must not write that attribute for the zero address:
+// the encoder's emission of F.String() as the attribute's value is dominated
+// by a test that the address is not the zero value. Otherwise the zero value
+// of the field - the natural "absent" - is written as attr="" and the type
+// cannot decode its own output.
+func emptyAddressAttrAgreement(c *cx, id string, in func(f *eng.Fn) bool) int {
+	n := 0
+	// decoders: type -> attribute local names parsed strictly
+	strict := map[*types.TypeName]map[string]bool{}
+	for _, f := range c.allFns() {
+		if f.Body == nil || f.Obj == nil || f.Obj.Name() != "UnmarshalXML" || !in(f) {
+			continue
+		}
+		tn := recvTypeName(f)
+		if tn == nil {
+			continue
+		}
+		g := f.Graph()
+		for _, cl := range f.Calls("jid.Parse") {
+			pt, ok := g.Where(cl)
+			if !ok || len(cl.Args) != 1 || !strings.HasSuffix(f.Norm(cl.Args[0], &pt), ".Value") {
+				continue
+			}
+			// which attribute? the dominating eq(X.Name.Local,"a") fact
+			for _, a := range g.DominatingAtoms(pt, "eq(*.Name.Local,\"*\")") {
+				name := a[strings.LastIndex(a, ",\"")+2 : len(a)-2]
+				// an empty value is let through if the parse is guarded
+				if okg, _ := g.DominatedAny(pt, []string{"!eq(*.Value,\"\")", "lt(0,builtin.len(*.Value))"}); okg {
+					continue
+				}
+				if strict[tn] == nil {
+					strict[tn] = map[string]bool{}
+				}
+				strict[tn][name] = true
+			}
+		}
+	}
+	for _, f := range c.allFns() {
+		if f.Body == nil || !in(f) {
+			continue
+		}
+		var top *eng.Fn
+		for x := f; x != nil; x = x.Parent {
+			top = x
+		}
+		if top.Obj == nil {
+			continue
+		}
+		switch top.Obj.Name() {
+		case "TokenReader", "WriteXML", "MarshalXML", "StartElement", "Wrap":
+		default:
+			continue
+		}
+		tn := recvTypeName(top)
+		if tn == nil || strict[tn] == nil {
+			continue
+		}
+		g := f.Graph()
+		for _, lit := range f.WalkLits("encoding/xml.Attr") {
+			nameLit, _ := structLitField(lit, "Name").(*ast.CompositeLit)
+			val := structLitField(lit, "Value")
+			if nameLit == nil || val == nil {
+				continue
+			}
+			local, _ := f.ConstStr(structLitField(nameLit, "Local"))
+			if !strict[tn][local] {
+				continue
+			}
+			pt, _ := g.Where(lit)
+			vn := f.Norm(val, &pt)
+			if !strings.HasPrefix(vn, "jid.JID.String[") {
+				continue
+			}
+			n++
+			addr := strings.TrimSuffix(strings.TrimPrefix(vn, "jid.JID.String["), "]()")
+			okd, _ := g.DominatedAny(pt, []string{
+				"!jid.JID.Equal[" + addr + "](jid.JID{})", "!jid.JID.Equal[jid.JID{}](" + addr + ")",
+				"!eq(" + vn + ",\"\")", "!eq(jid.JID.String[" + addr + "](),\"\")",
+			})
+			c.r.Check(id, f, "attribute "+local+" written from "+addr, "sibling agreement: the type's decoder rejects "+local+"=\"\" (jid.Parse), so the encoder writes the attribute only for a non-zero address", lit.Pos(), okd, "the zero address is written as "+local+"=\"\": the type cannot decode its own output")
+		}
+	}
+	return n
+}
+
+// decodedDurationsBounded (E-trunc, C19.30): a decoder that turns a decoded
+// integer into a time.Duration by multiplying with a unit (time.Second, ...)
+// has bounded the integer first: the product of a peer-chosen int64 and 1e9
+// overflows silently (a huge max-age becomes a negative duration). The
+// conversion's operand is dominated by an upper-bound fact, or is itself
+// defined under one (a clamped local).
+func decodedDurationsBounded(c *cx, id string, in func(f *eng.Fn) bool) int {
+	n := 0
+	for _, f := range c.allFns() {
+		if f.Body == nil || !in(f) {
+			continue
+		}
+		g := f.Graph()
+		f.WalkBody(func(nd ast.Node) bool {
+			be, ok := nd.(*ast.BinaryExpr)
+			if !ok || be.Op != token.MUL {
+				return true
+			}
+			for _, pair := range [][2]ast.Expr{{be.X, be.Y}, {be.Y, be.X}} {
+				cv, ok := ast.Unparen(pair[0]).(*ast.CallExpr)
+				if !ok || len(cv.Args) != 1 || f.CalleeID(cv) != "conv:time.Duration" {
+					continue
+				}
+				unit, isK := f.ConstInt(pair[1])
+				if !isK || unit < int64(1000) || f.ConstVal(cv.Args[0]) != nil {
+					continue
+				}
+				pt, okp := g.Where(be)
+				if !okp {
+					continue
+				}
+				n++
+				x := f.Norm(cv.Args[0], &pt)
+				bounded := false
+				for _, a := range g.FactsAt(pt) {
+					if (strings.HasPrefix(a, "lt("+x+",") || (strings.HasPrefix(a, "!lt(") && strings.HasSuffix(a, ","+x+")"))) && !strings.Contains(a, "nil") {
+						bounded = true
+					}
+				}
+				// a local that every path assigned under a bound (clamp): some
+				// reaching definition is dominated by "value > max" (the clamp arm)
+				if !bounded {
+					if idn, ok := ast.Unparen(cv.Args[0]).(*ast.Ident); ok {
+						if v, ok := f.Info().ObjectOf(idn).(*types.Var); ok && eng.IsLocal(v) {
+							ds := g.ReachingDefs(v, pt)
+							for _, d := range ds {
+								if d.RHS == nil {
+									continue
+								}
+								if _, isConst := f.ConstInt(d.RHS); isConst {
+									for _, a := range g.FactsAt(d.At) {
+										if strings.HasPrefix(a, "lt(") && !strings.Contains(a, "nil") {
+											bounded = true
+										}
+									}
+								}
+							}
+						}
+					}
+				}
+				c.r.Check(id, f, "duration from decoded integer "+x, "E-trunc: an integer multiplied into a time.Duration is bounded first (clamped or tested against the largest representable value)", be.Pos(), bounded, "the product overflows for large values: a huge number of seconds becomes a negative duration")
+			}
+			return true
+		})
+	}
+	return n
+}
